@@ -263,6 +263,8 @@ type DGen struct {
 	// RichInternal: internal selectors with several keys, negation, catch-all forms and
 	// neighbouring rules that satisfy the optimiser's merge precondition.
 	RichInternal bool
+	// LongReq: one program in LongReq gets 34..73 additional request (and sometimes response) rules.
+	LongReq int
 	MaxReq   int
 	MaxResp  int
 }
@@ -470,6 +472,28 @@ func (g *DGen) Gen() *DProg {
 	default:
 		p.Resp = g.genRules(maxResp, []string{"qname", "qtype", "ip", "ip", "upstream", "upstream"}, respOuts, tags, false)
 		p.RespFallback = g.pick([]string{"accept", "accept", "accept", "reject", g.pick(tags)})
+	}
+	if g.LongReq > 0 && g.R.IntN(g.LongReq) == 0 {
+		// long rule lists: more conditions than fit one 32-bit word of the matchers' bitmaps;
+		// neighbouring rules alternate their target so that the optimiser cannot merge them
+		n := 34 + g.R.IntN(40)
+		for i := 0; i < n; i++ {
+			out := []string{tags[0], "asis"}[i%2]
+			c := RCond{Func: "qname", Params: []RParam{{"full", fmt.Sprintf("h%02d.long.example", i)}}}
+			if g.R.IntN(6) == 0 {
+				c.Params[0].Key = "suffix"
+			}
+			rl := DRule{Conds: []RCond{c}, Out: out}
+			if g.R.IntN(5) == 0 {
+				rl.Conds = append(rl.Conds, RCond{Func: "qtype", Params: []RParam{{"", g.pick([]string{"a", "aaaa", "https"})}}})
+			}
+			p.Req = append(p.Req, rl)
+		}
+		if g.R.IntN(2) == 0 {
+			for i := 0; i < n; i++ {
+				p.Resp = append(p.Resp, DRule{Conds: []RCond{{Func: "qname", Params: []RParam{{"full", fmt.Sprintf("h%02d.long.example", i)}}}}, Out: []string{"reject", "accept"}[i%2]})
+			}
+		}
 	}
 	return p
 }
